@@ -93,6 +93,9 @@ func GLoopDone(loopPat string) Gate {
 	pp := P(loopPat)
 	return Gate{Name: "loop " + loopPat + " ran to completion", Edges: func(p *Prog, ifi *ssa.If) (bool, bool) {
 		b := ifi.Block()
+		if b == nil {
+			return false, false
+		}
 		switch b.Comment {
 		case "rangeindex.loop", "rangeiter.loop", "for.loop", "rangeint.loop", "rangechan.loop":
 		default:
